@@ -14,6 +14,10 @@ NA = {
 }
 
 CHECKS = {
+ "C12": dict(engine="K1", category="fault_enumeration", design="§4 C12",
+   technique="deterministic simulation with fault injection: synctest bubble (fake clock) + tape-driven scheduler over a simulated transport, upload sources and response body; single-fault placement sweep; goroutine/close accounting; tape minimisation + replay",
+   text="One Runtime.Submit per run inside a synctest bubble whose every blocking point (upload-source reads, transport steps, response-body reads, closes) is a parked operation released one at a time by the seeded tape, which also moves the fake clock to just before/at/after the deadline and cancels the caller's context at a chosen step. Faults: source read error at any offset, params/auth/URL errors before sending, transport error before/while/after the body, response stall/reset, body reset/truncate/stall at any offset, close errors. Oracles after the run has settled: returned, not later than the effective deadline (exact on the fake clock), error unless complete, files closed, response body closed and drained when reuse is on, no goroutine with a go-openapi/runtime frame left. The thorough tier sweeps every single-fault placement for 9 canonical scenarios × reuse on/off. Sampling of schedules, enumeration of single-fault placements; not a proof.",
+   note="The network is a stub RoundTripper (net/http's Client.Do is real, http.Transport is not in the loop); fake time never passes while request construction waits for an upload source or while a Close is parked; the simulated server consumes the whole request body before answering."),
  "C17": dict(engine="SEQ", category="fault_enumeration", design="§4 C17",
    technique="deterministic simulation: seeded HasBody/Read/Close histories over fault-injecting scripted streams, checked step by step against a reference stream model; tape minimisation + replay",
    text="Seeded search over histories (≤12 steps of HasBody / Read / Close) on scripted underlying streams with injected faults (error at any offset, zero-length reads, data+EOF, every chunking, nil body) × declared length positive/zero/absent, each step compared with an executable reference model; the thorough tier adds the systematic sweep of every error offset × probe position for 18 stream lengths around bufio's 4096-byte buffer. Sampling, not proof.",
